@@ -48,12 +48,14 @@ func GenerateConcurrent(bitsize int, stop chan struct{}) (<-chan *big.Int, <-cha
 				}
 
 				common.VerifPoint("safeprime.worker.beforeSend")
-				// Only send result and continue generating if we have not been told to stop
+				// Only send result and continue generating if we have not been told to stop.
+				// The send itself must also be abandoned when we are stopped: once the consumer
+				// has what it needs it no longer drains ints, so a bare send on a full channel
+				// would block this goroutine forever.
 				select {
 				case <-stopped:
 					return
-				default:
-					ints <- x
+				case ints <- x:
 					continue
 				}
 			}
